@@ -7,12 +7,15 @@ VERIF = "/verif"
 
 CLAIMED = {
     "C02": ("4 C02", "ast/CFG cache-invalidation analysis: key registry + computed getter dependency graph, "
-            "must-pass-through of reset_contraction_indices after node removal, root-order writer guard, who-may-write"),
-    "C03": ("4 C03", "def-use provenance of flops/size getters and must-dependence of extensive totals on the slice multiplicity"),
+            "must-pass-through of reset_contraction_indices after node removal, root-order writer guard, who-may-write, "
+            "memo-key carrier analysis of the compiled-contractor cache, purity of inplace=False transformations "
+            "(writes and CFG-reachable stale reads of the original)"),
+    "C03": ("4 C03", "def-use provenance of flops/size getters, must-dependence of extensive totals on the slice multiplicity, "
+            "executed-equals-reported clauses (contractor memo key, sliced-leaf invalidation)"),
     "C04": ("4 C04", "attribute-completeness and aliasing analysis of set_state_from/copy, who-may-write and "
             "sign-symmetry of running totals, CFG dominance of contract_stats before deltas"),
     "C06": ("4 C06", "write-discipline of the sliced-index table (sorted rebuild only, SliceInfo field order) and pairing "
-            "of sliced_inputs updates"),
+            "of sliced_inputs updates, chunk-key/slice-number agreement, exponent-aware combination sites"),
     "C07": ("4 C07", "CFG guard dominance of the forbidden-index test, structural form of the target filter, sibling "
             "agreement of the three target encodings"),
     "C08": ("4 C08", "post-dominance of stats refresh after in-place post-processing, sibling cross-check of objectives' "
@@ -26,12 +29,15 @@ CLAIMED = {
     "C16": ("4 C16", "thread-keyed / content-addressed store discipline of per-query state and carry-over (result-"
             "carrying attribute) analysis over the call graph"),
     "C17": ("4 C17", "seed plumbing over the resolved call graph, no global-RNG use under seeded entries, "
-            "hash-ordered iteration classification"),
+            "named-preset resolution (register_preset table) for sub-optimizers of seeded operations, "
+            "flow-sensitive hash-ordered iteration classification"),
     "C18": ("4 C18", "sibling cross-check of the index-survival predicates and appearance tables of the cost simulators; "
             "uncompensated index drop reachability"),
     "C19": ("4 C19", "every per-slice combination site uses the exponent-aware adder; normalise/accumulate pairing; "
-            "rescale-before-stack dominance; option reaches every expression branch"),
-    "C20": ("4 C20", "taint of the bond cap chi: reaches sizes only through min()/comparison"),
+            "rescale-before-stack dominance and form; scale measure and zero sentinel; option reaches every expression branch"),
+    "C20": ("4 C20", "taint of the bond cap chi (reaches sizes only through min()/comparison); sibling cross-checks of "
+            "compress vs its cost estimate, hypergraph vs tree survival rule, exact vs compressed size range; "
+            "ownership (freshness) of the simulator's size table; unary-step handling of path consumers"),
 }
 
 LEVEL_TEXT = {
@@ -45,10 +51,10 @@ LEVEL_TEXT = {
     "C14": "fingerprints are deterministic, covering and position-preserving, and the lookup/run/overwrite policy holds on every CFG path of the reusable optimizer; that a rebuilt tree equals the searched one is not decided",
     "C15": "no kill point can leave a partial file under an entry name because every durable write is temp-sibling + close + atomic replace, and a corrupt entry reads as absent; filesystem behaviour is assumed (POSIX rename)",
     "C16": "per-query state of shared optimizers is keyed by thread or by contraction on every write/read, no result-carrying optimizer is reused, and 'searched' is only reported by the searching thread — the interleaving quantifier is discharged structurally (atomic dict ops assumed)",
-    "C17": "the seed reaches every random-consuming callee of every seeded context over the resolved call graph, no global generator is used, no label set is iterated into an order-sensitive consumer; third-party partitioners are trusted given their seed",
+    "C17": "the seed reaches every random-consuming callee of every seeded context over the resolved call graph, no global generator is used, named preset sub-optimizers of seeded operations consume no randomness, no label set is iterated into an order-sensitive consumer; third-party partitioners are trusted given their seed",
     "C18": "all simulators use the same survival predicate, appearance table and count bookkeeping (sibling cross-check) and a reported cost covers every contraction step; numerical equality step by step is not decided",
-    "C19": "every combination of per-slice results is exponent-aware, the scale is accumulated additively in log space with a bounded rescale; floating-point range claims are not decided",
-    "C20": "the bond cap reaches sizes only through min()/comparison and the compress-cost estimate charges exactly when compress truncates; tracker arithmetic is not decided",
+    "C19": "every combination of per-slice results is exponent-aware, the scale divided out is the largest magnitude and accumulated additively in log space with a bounded rescale, a zero result carries the neutral exponent; floating-point range claims themselves are not decided",
+    "C20": "the bond cap reaches sizes only through min()/comparison, the compress-cost estimate charges exactly when compress truncates, the simulator owns its size table and keeps the tree's survival rule, exact and compressed size figures range over the same tensors, path consumers accept unary steps; tracker arithmetic is not decided",
 }
 
 NA = {
